@@ -14,6 +14,7 @@
 #include <climits>
 #include <algorithm>
 #include <pthread.h>
+#include <semaphore.h>
 #include <sched.h>
 #include <unistd.h>
 #include <link.h>
@@ -82,6 +83,7 @@ static int g_cur = -1, g_nthreads = 0;
 static uint64_t g_step = 0, g_seq_steps = 0;
 static size_t g_script_i = 0; static uint64_t g_script_n = 0; static bool g_script_op_done = false;
 static const Config *g_cfg = nullptr;
+static uint64_t g_sem_blocks = 0;     // blocking sem_wait() calls of this run so far
 static Result *g_res = nullptr;
 static sim_rng g_srng;
 static size_t g_replay_i = 0;
@@ -99,7 +101,7 @@ static uint32_t VC[MAXT][MAXT];
 static void vc_join(uint32_t *dst, const uint32_t *src) { for (int i = 0; i < MAXT; i++) if (src[i] > dst[i]) dst[i] = src[i]; }
 
 // sync objects (mutex / once / atomic location / rwlock), keyed by address
-struct SyncObj { const void *key; uint32_t vc[MAXT]; int owner; int once_state; int readers; };
+struct SyncObj { const void *key; uint32_t vc[MAXT]; int owner; int once_state; int readers; long sem; };
 static std::vector<SyncObj> g_sync;
 static SyncObj &sync_obj(const void *k) {
     for (auto &s : g_sync) if (s.key == k) return s;
@@ -475,7 +477,7 @@ void run_concurrent(const Config &cfg, thread_fn fn, void *arg, Result &out) {
     g_cfg = &cfg; g_res = &out; g_fn = fn; g_arg = arg; g_nthreads = cfg.nthreads;
     out.interleaving_hash = SIM_FNV_INIT;
     g_step = 0; g_replay_i = 0; g_quantum_left = cfg.quantum; g_stop_all = false; g_script_i = 0; g_script_n = 0; g_script_op_done = false;
-    g_srng = sim_derive(cfg.sched_seed, 0x5c4ed);
+    g_srng = sim_derive(cfg.sched_seed, 0x5c4ed); g_sem_blocks = 0;
     g_gen++; g_cells_used = 0;
     if (g_gen == 0) { memset(g_cells, 0, sizeof(Cell) * NCELL); g_gen = 1; }
     if (!cfg.keep_sync_state) g_sync.clear();
@@ -910,6 +912,54 @@ int __wrap_pthread_mutex_unlock(pthread_mutex_t *m) {
     sync_release(m); s.owner = -1; unblock_waiters(m);
     return 0;
 }
+// POSIX semaphores: a counter the scheduler sees.  A thread that would block in sem_wait() may instead be interrupted by a
+// signal handled by the application (handler installed without SA_RESTART): the call returns -1/EINTR WITHOUT having taken
+// the semaphore, which POSIX allows at any time.  Whether that happens to a given blocking call is decided by the run's
+// schedule seed and the number of blocking waits so far (Config::sig_rate percent; 0 = never).
+int __wrap_sem_init(sem_t *m, int, unsigned value) {
+    if (!active()) return 0;
+    RtGuard rg_;
+    SyncObj &s = sync_obj(m); s.sem = (long)value; s.once_state = 7;
+    return 0;
+}
+int __wrap_sem_destroy(sem_t *) { return 0; }
+int __wrap_sem_post(sem_t *m) {
+    if (!active()) return 0;
+    RtGuard rg_;
+    if (g_mode == 2) { sched_point(); ev_hash((uint32_t)(PC - g_base)); g_res->sync_ops++; }
+    SyncObj &s = sync_obj(m);
+    if (g_mode == 2) sync_release(m);
+    s.sem++;
+    if (g_mode == 2) unblock_waiters(m);
+    return 0;
+}
+int __wrap_sem_trywait(sem_t *m) {
+    if (!active()) return 0;
+    RtGuard rg_;
+    if (g_mode == 2) { sched_point(); ev_hash((uint32_t)(PC - g_base)); g_res->sync_ops++; }
+    SyncObj &s = sync_obj(m);
+    if (s.sem <= 0) { errno = EAGAIN; return -1; }
+    s.sem--; if (g_mode == 2) sync_acquire(m);
+    return 0;
+}
+int __wrap_sem_wait(sem_t *m) {
+    if (!active()) return 0;
+    RtGuard rg_;
+    if (g_mode != 2) { SyncObj &s = sync_obj(m); if (s.sem > 0) s.sem--; return 0; }
+    sched_point(); ev_hash((uint32_t)(PC - g_base)); g_res->sync_ops++;
+    SyncObj *s = &sync_obj(m);
+    while (s->sem <= 0) {
+        if (g_cfg && g_cfg->sig_rate > 0) {
+            uint64_t h = sim_mix64(g_cfg->sched_seed ^ (0x516a1ULL + ++g_sem_blocks * 0x9e3779b97f4a7c15ULL));
+            if ((int)(h % 100) < g_cfg->sig_rate) { g_res->sem_eintr++; ev_hash(0xe1272u); errno = EINTR; return -1; }
+        }
+        block_on(m); s = &sync_obj(m); if (g_stop_all) return 0;
+    }
+    s->sem--; sync_acquire(m);
+    return 0;
+}
+int __wrap_sem_timedwait(sem_t *m, const struct timespec *) { return __wrap_sem_wait(m); }
+
 int __wrap_pthread_mutex_init(pthread_mutex_t *, const pthread_mutexattr_t *) { return 0; }
 int __wrap_pthread_mutex_destroy(pthread_mutex_t *) { return 0; }
 int __wrap_pthread_rwlock_rdlock(pthread_rwlock_t *m) {
